@@ -20,6 +20,10 @@ impl MacAddress {
 
         let mut bytes = [0u8; 6];
         for (i, part) in parts.iter().enumerate() {
+            // one or two hexadecimal digits (from_str_radix would also take a sign)
+            if part.is_empty() || part.len() > 2 || !part.bytes().all(|b| b.is_ascii_hexdigit()) {
+                return Err(PacketError::InvalidMacAddress);
+            }
             match u8::from_str_radix(part, 16) {
                 Ok(value) => bytes[i] = value,
                 Err(_) => return Err(PacketError::InvalidMacAddress),
